@@ -243,6 +243,7 @@ class P(Prop):
     MN = "TracklibVerif.Props.C15ExtNonneg"
     MC = "TracklibVerif.Props.C15Coll"
     MI = "TracklibVerif.Props.C15ExtInfTotal"
+    MS = "TracklibVerif.Props.C15ExtSeq"
     theorems = [
         (M, "TV.C15.window_spec", "(w,x) is in the window of i iff w = k[j] and x = v[i-j+D] for a kernel position j whose sample index is inside the signal and not NaN"),
         (M, "TV.C15.filter_is_mean", "T1: in the domain Filter.execute succeeds, returns one value per observation, and every filtered value is (sum k[j] v[i-j+D]) / (sum k[j]) over the valid j"),
@@ -309,6 +310,9 @@ class P(Prop):
         (MC, "TV.C15.collection_smooth_too_short_fails", "TrackCollection.smooth() with the default constraint = 1e3 (half window 3000), or any width whose half window exceeds the first track: IndexError at the first track, no track smoothed"),
         (MI, "TV.C15.list_infinite_total", "a weight list whose total is infinite (an inf / -inf weight): the list is left holding only 0 and nan, every filtered index is NaN, ZeroDivisionError iff a window reads no sample — with list_zero_or_nan_total: whenever the total is not a non-zero finite number no filtered output is a number"),
         (MI, "TV.C15.filterWindowX_np_nan", "generic (no law of arithmetic): if the quotient temp/norm of every window that reads a sample is NaN, a weight-list call returns the copied boundaries and NaN elsewhere, and raises ZeroDivisionError iff a window reads no sample"),
+        (MS, "TV.C15.filterSeq_zero_total_list", "filter_seq(track, weights) with a weight list whose total is 0 or NaN (the derivative kernel [1,0,-1]) on NaN-free coordinates of at least D points: no exception; the caller's list is left as [nan,...,nan] (divided by its total at every dimension); x, y and z are NaN at every filtered index, their first and last D values kept"),
+        (MS, "TV.C15.operateListX_nonfin", "track.operate(FILTER, af, weights, 'temp') when the normalised weights are all inf/-inf/nan: the output feature is NaN at every filtered index, boundary values copied, list left normalised"),
+        (MS, "TV.C15.normalise_nonfin_all_nan", "a non-empty list of inf/-inf/nan weights divided by its total is all NaN: from the second dimension of filter_seq on the list is [nan,...,nan]"),
         (MF, "TV.C15.fin_div_fin", "temp[i] / norm as numpy computes it from finite accumulators: t/n when n != 0, else inf / -inf by the sign of t, nan for 0/0"),
         (MF, "TV.C15.finite_weights_any_sign", "finite weights of ANY sign (negative included), every window reading a sample: out[i] = (sum k[j] v[i-j+D]) / (sum k[j]) as numpy divides — the renormalised mean when the norm is not 0, +/-inf or NaN when it cancels; never an exception with numpy weights"),
         (MF, "TV.C15.ext_model_agrees", "no zero norm: the model over Python's numbers returns exactly the signal of the model over a field (meanSignal), so the domain theorems (filter_is_mean, filter_bounds, ...) hold for it"),
